@@ -4,10 +4,8 @@ import (
 	"encoding/json"
 	"fmt"
 	"io/ioutil"
+	"os"
 	"regexp"
-	"runtime"
-	"sort"
-	"sync"
 	"sync/atomic"
 	"time"
 )
@@ -112,8 +110,14 @@ type RunCfg struct {
 	Seeds      []uint64
 	RunsPer    int     // runs per seed
 	MaxSeconds float64 // wall-clock safety cap for the whole batch (0 = none)
-	Workers    int
 	Known      []KnownFinding
+	// A process runs the indices n = Offset + j*Stride (n counts over all
+	// seeds). Worlds never run concurrently inside one process: concurrent
+	// worlds would be an uncontrolled source of interleaving (any cross-world
+	// interference through package-level state of the library would show up
+	// as an unreplayable failure). The cores are used by child processes.
+	Stride, Offset int
+	StopFile       string // created when a violation is found; polled by the other children
 }
 
 type Found struct {
@@ -134,82 +138,70 @@ type RunResult struct {
 	Stalled   string // a run that stopped making progress (infrastructure trouble, exit 2)
 }
 
-// Run executes RunsPer runs for every seed on a worker pool. Which worker runs
-// which index is irrelevant: a run is a function of (seed, index) only.
+// Run executes this process's share of the runs, one world at a time.
 func Run(cfg RunCfg) *RunResult {
-	if cfg.Workers <= 0 {
-		cfg.Workers = runtime.NumCPU()
+	if cfg.Stride <= 0 {
+		cfg.Stride = 1
 	}
 	mon := MonitorsFor(cfg.Prop)
 	res := &RunResult{Stats: NewStats(), KnownHits: map[string]int64{}, KnownEx: map[string]string{}}
 	t0 := time.Now()
 	total := uint64(len(cfg.Seeds)) * uint64(cfg.RunsPer)
-	var next uint64
-	var stop int32
-	var mu sync.Mutex
-	var founds []Found
-	progress := make([]int64, cfg.Workers) // unix nanos of each worker's last finished run
-	current := make([]uint64, cfg.Workers)
-	var wg sync.WaitGroup
+	var progress int64 // unix nanos of the last finished run
+	var current uint64 // n+1 of the run in progress
 	done := make(chan struct{})
-	for w := 0; w < cfg.Workers; w++ {
-		wg.Add(1)
-		go func(w int) {
-			defer wg.Done()
-			st := NewStats()
-			for atomic.LoadInt32(&stop) == 0 {
-				n := atomic.AddUint64(&next, 1) - 1
-				if n >= total {
-					break
-				}
-				seed := cfg.Seeds[n/uint64(cfg.RunsPer)]
-				idx := n % uint64(cfg.RunsPer)
-				atomic.StoreUint64(&current[w], n+1)
-				sc := Build(cfg.Prop, seed, idx, cfg.Tier)
-				st.Runs++
-				if len(sc.Events) > 0 {
-					st.SimTimeUs += sc.Events[len(sc.Events)-1].At
-				}
-				if len(st.Samples) < 1 && idx%97 == 3 {
-					if b, err := json.Marshal(sampleOf(sc)); err == nil {
-						st.Samples = append(st.Samples, b)
-					}
-				}
-				v := Exec(sc, mon, st)
-				atomic.StoreInt64(&progress[w], time.Now().UnixNano())
-				if v != nil {
-					if k := matchKnown(cfg.Known, sc, v); k != nil {
-						mu.Lock()
-						res.KnownHits[k.ID]++
-						if _, ok := res.KnownEx[k.ID]; !ok {
-							res.KnownEx[k.ID] = v.String()
-						}
-						mu.Unlock()
-						continue
-					}
-					mu.Lock()
-					founds = append(founds, Found{Seed: seed, Index: idx, V: v, Sc: sc})
-					mu.Unlock()
-					atomic.StoreInt32(&stop, 1)
-				}
-				if cfg.MaxSeconds > 0 && time.Since(t0).Seconds() > cfg.MaxSeconds {
-					mu.Lock()
-					res.TimedOut = true
-					mu.Unlock()
-					atomic.StoreInt32(&stop, 1)
+	go func() {
+		defer close(done)
+		st := res.Stats
+		for n := uint64(cfg.Offset); n < total; n += uint64(cfg.Stride) {
+			seed := cfg.Seeds[n/uint64(cfg.RunsPer)]
+			idx := n % uint64(cfg.RunsPer)
+			atomic.StoreUint64(&current, n+1)
+			sc := Build(cfg.Prop, seed, idx, cfg.Tier)
+			st.Runs++
+			if len(sc.Events) > 0 {
+				st.SimTimeUs += sc.Events[len(sc.Events)-1].At
+			}
+			if len(st.Samples) < 1 && idx%97 == 3 {
+				if b, err := json.Marshal(sampleOf(sc)); err == nil {
+					st.Samples = append(st.Samples, b)
 				}
 			}
-			atomic.StoreUint64(&current[w], 0)
-			mu.Lock()
-			res.Stats.Merge(st)
-			mu.Unlock()
-		}(w)
-	}
-	go func() { wg.Wait(); close(done) }()
-	// watchdog: a run that makes no progress for a long time is infrastructure trouble
-	// (or a non-terminating library call - reported after re-running it alone, see cmd/simcheck)
+			v := Exec(sc, mon, st)
+			atomic.StoreInt64(&progress, time.Now().UnixNano())
+			if v != nil {
+				if k := matchKnown(cfg.Known, sc, v); k != nil {
+					res.KnownHits[k.ID]++
+					if _, ok := res.KnownEx[k.ID]; !ok {
+						res.KnownEx[k.ID] = v.String()
+					}
+					continue
+				}
+				res.Found = &Found{Seed: seed, Index: idx, V: v, Sc: sc}
+				if cfg.StopFile != "" {
+					ioutil.WriteFile(cfg.StopFile, []byte("stop"), 0644)
+				}
+				return
+			}
+			if st.Runs%64 == 0 {
+				if cfg.MaxSeconds > 0 && time.Since(t0).Seconds() > cfg.MaxSeconds {
+					res.TimedOut = true
+					return
+				}
+				if cfg.StopFile != "" {
+					if _, err := os.Stat(cfg.StopFile); err == nil {
+						return
+					}
+				}
+			}
+		}
+	}()
+	// watchdog: a run that makes no progress for a long time is either a
+	// non-terminating library call or infrastructure trouble; the parent
+	// decides which by re-running that world alone
 	tick := time.NewTicker(2 * time.Second)
 	defer tick.Stop()
+	atomic.StoreInt64(&progress, time.Now().UnixNano())
 wait:
 	for {
 		select {
@@ -217,36 +209,22 @@ wait:
 			break wait
 		case <-tick.C:
 			now := time.Now().UnixNano()
-			for w := 0; w < cfg.Workers; w++ {
-				p := atomic.LoadInt64(&progress[w])
-				c := atomic.LoadUint64(&current[w])
-				if c > 0 && p > 0 && now-p > int64(120*time.Second) && atomic.LoadInt32(&stop) == 0 {
-					n := c - 1
-					res.Stalled = fmt.Sprintf("seed=%d index=%d", cfg.Seeds[n/uint64(cfg.RunsPer)], n%uint64(cfg.RunsPer))
-					atomic.StoreInt32(&stop, 1)
-					break wait
-				}
+			p := atomic.LoadInt64(&progress)
+			c := atomic.LoadUint64(&current)
+			if c > 0 && now-p > int64(StallSeconds)*int64(time.Second) {
+				n := c - 1
+				res.Stalled = fmt.Sprintf("%d:%d", cfg.Seeds[n/uint64(cfg.RunsPer)], n%uint64(cfg.RunsPer))
+				break wait
 			}
 		}
 	}
 	res.Wall = time.Since(t0).Seconds()
 	res.Runs = res.Stats.Runs
-	if len(founds) > 0 {
-		// deterministic choice: seed order, then lowest index
-		seedPos := map[uint64]int{}
-		for i, s := range cfg.Seeds {
-			seedPos[s] = i
-		}
-		sort.Slice(founds, func(i, j int) bool {
-			if seedPos[founds[i].Seed] != seedPos[founds[j].Seed] {
-				return seedPos[founds[i].Seed] < seedPos[founds[j].Seed]
-			}
-			return founds[i].Index < founds[j].Index
-		})
-		res.Found = &founds[0]
-	}
 	return res
 }
+
+// StallSeconds: how long one world may run before the watchdog gives up on it.
+var StallSeconds = 60
 
 // sampleOf is a compact, readable rendering of a scenario for the evidence file.
 func sampleOf(sc *Scenario) map[string]interface{} {
